@@ -164,7 +164,7 @@ def emit_unit(u, out, chunk=None):
             if o == "lit":
                 return lean_rat(p.numerator, p.denominator)
             return "n%d" % j
-        out.write("def %s_%s {K : Type} [Field K] %s : K :=\n" % (uname, lean_ident(oname), binder))
+        out.write("@[gen_simp] def %s_%s {K : Type} [Field K] %s : K :=\n" % (uname, lean_ident(oname), binder))
         body = []
         for j in u.order:
             if j not in cone:
@@ -175,6 +175,36 @@ def emit_unit(u, out, chunk=None):
             body.append("  let n%d := %s" % (j, node_expr(u, j, ref)))
         out.write("\n".join(body) + ("\n" if body else ""))
         out.write("  %s\n\n" % ref(root))
+    # divisor nodes (non constant), in order of creation: `<unit>_den<k>`; theorems state their
+    # non-vanishing as hypotheses and relate them to the specification separately
+    dens = []
+    for j in u.order:
+        o, p = u.nodes[j]
+        if o == "div":
+            do, _ = u.nodes[p[1]]
+            if do not in ("const", "lit") and p[1] not in dens:
+                dens.append(p[1])
+    for k, root in enumerate(dens):
+        cone = u.cone(root)
+
+        def ref(j):
+            o, p = u.nodes[j]
+            if o == "in":
+                return lean_ident(p)
+            if o == "const":
+                return lean_const(*p)
+            if o == "lit":
+                return lean_rat(p.numerator, p.denominator)
+            return "n%d" % j
+        out.write("@[gen_simp] def %s_den%d {K : Type} [Field K] %s : K :=\n" % (uname, k, binder))
+        for j in u.order:
+            if j in cone and u.nodes[j][0] not in ("in", "const", "lit"):
+                out.write("  let n%d := %s\n" % (j, node_expr(u, j, ref)))
+        out.write("  %s\n\n" % ref(root))
+    # all outputs of the unit, in the order in which the tracer declared them
+    args = "c c3 fn" + ("".join(" " + x for x in ins))
+    out.write("@[gen_simp] def %s_all {K : Type} [Field K] %s : List K :=\n  [%s]\n\n" % (
+        uname, binder, ",\n   ".join("%s_%s %s" % (uname, lean_ident(o), args) for o, _ in u.outs)))
     # path conditions (concolic mode): a Prop over the same binders
     if u.paths:
         def ref2(j):
